@@ -1,10 +1,13 @@
-"""Helper used while repairing /repo: apply exact-text replacements, run the 63 tests, commit.  Not used by checks."""
+"""Helper used while repairing /repo: apply exact-text replacements (atomically), run the 63 tests, commit.  Not used by checks."""
 import subprocess,sys
 def patch(edits, msg):
+    files={}
     for path, old, new in edits:
-        s=open('/repo/'+path).read()
+        s=files.get(path) or open('/repo/'+path).read()
         assert s.count(old)==1,(path,old[:60],s.count(old))
-        open('/repo/'+path,'w').write(s.replace(old,new))
+        files[path]=s.replace(old,new)
+    for path,s in files.items():
+        open('/repo/'+path,'w').write(s)
     r=subprocess.run("cd /repo && cargo test --offline 2>&1 | grep -E '^test result|FAILED|^error' -A5",shell=True,capture_output=True,text=True).stdout
     if not (r.count('ok.')==3 and 'FAILED' not in r and 'error' not in r):
         print(r); subprocess.run("cd /repo && git checkout -- .",shell=True); sys.exit(1)
